@@ -47,6 +47,16 @@ def run(case):
     try:
         f = get_fluid(case["fluid"])
         out["params"] = describe(f)
+        if case["fluid"]["kind"] != "shipped":
+            # the same fluid written to XML and read back through the documented loader
+            import tempfile
+            with tempfile.TemporaryDirectory() as d:
+                fn = os.path.join(d, "fluid.xml")
+                f.save(fn, "model")
+                g = thermalfluid.ThermalFluidMaterial.load(fn, "model")
+            out["reloaded"] = describe(g)
+            T, u, r = [fl(x) for x in case["points"][0]]
+            out["reloaded_film"] = hv(g.film_coefficient(T, u, r))
         rows = []
         for T, u, r in case["points"]:
             T, u, r = fl(T), fl(u), fl(r)
